@@ -120,7 +120,25 @@ fn str_views(out: &mut String, v: Utf32Str<'_>, sched: &str) {
         format!("{}:{}", if got.is_empty() { "-".to_string() } else { got.join(",") }, rest)
     });
     write!(out, " drive={}", or_p(drive)).unwrap();
-    write!(out, " disp={}", or_p(guard(|| show(v.to_string().chars().map(|c| c as u32))))).unwrap();
+    // Display shows the content whatever formatter flags the caller uses: with a width / alignment / precision the
+    // output is either the plain content (flags ignored) or what the same flags do to the content as a String -
+    // never a per-character application of the flags (round 6, C17-m12); a deviating rendering is reported as `disp`
+    write!(
+        out,
+        " disp={}",
+        or_p(guard(|| {
+            let plain = v.to_string();
+            let alts = [
+                (format!("{:7}", v), format!("{:7}", plain)),
+                (format!("{:>9}", v), format!("{:>9}", plain)),
+                (format!("{:.1}", v), format!("{:.1}", plain)),
+                (format!("{:^5.2}", v), format!("{:^5.2}", plain)),
+            ];
+            let shown = alts.iter().find(|(got, std_)| *got != plain && got != std_).map_or(plain.clone(), |(got, _)| got.clone());
+            show(shown.chars().map(|c| c as u32))
+        }))
+    )
+    .unwrap();
     write!(out, " dbg={}", or_p(guard(|| show(format!("{:?}", v).chars().map(|c| c as u32))))).unwrap();
     let len = guard(|| v.len()).unwrap_or(0);
     let mut gets = Vec::new();
